@@ -21,26 +21,30 @@ import (
 	"fmt"
 	"hash/fnv"
 	"os"
+	"os/exec"
+	"path/filepath"
 	"sort"
 	"strconv"
 	"strings"
 	"sync"
 	"sync/atomic"
+	"time"
 
 	"github.com/ohler55/ojg/jp"
 	"verif/harness/lib"
 )
 
 var (
-	prop    = flag.String("prop", "C14", "property id")
-	tier    = flag.String("tier", "quick", "quick|thorough")
-	seed    = flag.Uint64("seed", 1, "PRNG seed")
-	driver  = flag.String("driver", "", "path of drv_jptext")
-	outPath = flag.String("out", "", "report path")
-	replay  = flag.String("replay", "", "replay file")
-	corpus  = flag.String("corpus", "", "corpus file: one hex line per case (hex of `expr <wire>`, `eqn <wire>` or `text <hex>`)")
-	known   = flag.String("known", "", "known_findings.json")
-	workers = flag.Int("workers", 16, "parallel workers")
+	prop     = flag.String("prop", "C14", "property id")
+	tier     = flag.String("tier", "quick", "quick|thorough")
+	seed     = flag.Uint64("seed", 1, "PRNG seed")
+	driver   = flag.String("driver", "", "path of drv_jptext")
+	outPath  = flag.String("out", "", "report path")
+	replay   = flag.String("replay", "", "replay file")
+	corpus   = flag.String("corpus", "", "corpus file: one hex line per case (hex of `expr <wire>`, `eqn <wire>` or `text <hex>`)")
+	known    = flag.String("known", "", "known_findings.json")
+	workers  = flag.Int("workers", 16, "parallel workers")
+	caseLine = flag.String("caseline", "", "run one case given as a case line (used by the supervisor)")
 )
 
 // Case is one object description or one text.
@@ -102,8 +106,28 @@ func keepSeed(b []byte) {
 
 func main() {
 	flag.Parse()
+	if os.Getenv("VERIF_JPTEXT_CHILD") == "" {
+		// the real work runs in a child process: a fatal error of the Go runtime in the code under test
+		// (stack overflow of a recursion that no longer ends) cannot be recovered, only survived
+		os.Exit(supervise())
+	}
 	rep = lib.NewReport(*prop, *tier, *seed)
 	knownList = lib.LoadKnown(*known, *prop)
+	if *caseLine != "" {
+		c, err := parseCaseLine(*caseLine)
+		if err != nil {
+			os.Exit(3)
+		}
+		d, err := lib.StartDriver(*driver)
+		if err != nil {
+			os.Exit(3)
+		}
+		defer d.Close()
+		if err := processBatch(d, []Case{*c}); err != nil {
+			os.Exit(3)
+		}
+		return
+	}
 	if *replay != "" {
 		runReplay()
 		return
@@ -115,6 +139,7 @@ func main() {
 		var wg sync.WaitGroup
 		for w := 0; w < *workers; w++ {
 			wg.Add(1)
+			w := w
 			go func() {
 				defer wg.Done()
 				d, err := lib.StartDriver(*driver)
@@ -126,6 +151,7 @@ func main() {
 				}
 				defer d.Close()
 				for batch := range cases {
+					journal(w, batch)
 					if err := processBatch(d, batch); err != nil {
 						fatal.Store(err.Error())
 					}
@@ -222,6 +248,148 @@ func main() {
 		fmt.Fprintln(os.Stderr, err)
 		os.Exit(3)
 	}
+}
+
+// ---- surviving a fatal error of the code under test ----------------------------------------------------------
+
+// journal notes the cases a worker is about to run, so that the supervisor can find the one that killed the
+// process.
+func journal(w int, batch []Case) {
+	dir := os.Getenv("VERIF_JPTEXT_JOURNAL")
+	if dir == "" {
+		return
+	}
+	var sb strings.Builder
+	for i := range batch {
+		sb.WriteString(batch[i].line())
+		sb.WriteByte('\n')
+	}
+	_ = os.WriteFile(filepath.Join(dir, fmt.Sprintf("w%d.txt", w)), []byte(sb.String()), 0o644)
+}
+
+func lastLines(b []byte, key string) string {
+	for _, l := range strings.Split(string(b), "\n") {
+		if strings.Contains(l, key) {
+			return strings.TrimSpace(l)
+		}
+	}
+	return ""
+}
+
+// supervise runs this program again as a child; when the child dies of a fatal runtime error it re-runs the
+// journaled cases one by one, each in its own process, and reports those that kill it as violations.
+func supervise() int {
+	dir, err := os.MkdirTemp("", "jptext_journal")
+	if err != nil {
+		fmt.Fprintln(os.Stderr, err)
+		return 3
+	}
+	defer os.RemoveAll(dir)
+	env := append(os.Environ(), "VERIF_JPTEXT_CHILD=1", "VERIF_JPTEXT_JOURNAL="+dir)
+	cmd := exec.Command(os.Args[0], os.Args[1:]...)
+	cmd.Env = env
+	cmd.Stdout = os.Stdout
+	var errBuf bytes.Buffer
+	cmd.Stderr = &errBuf
+	runErr := cmd.Run()
+	if runErr == nil {
+		os.Stderr.Write(errBuf.Bytes())
+		return 0
+	}
+	code := -1
+	if ee, ok := runErr.(*exec.ExitError); ok {
+		code = ee.ExitCode()
+	}
+	fatalMsg := lastLines(errBuf.Bytes(), "fatal error:")
+	if code == 3 || fatalMsg == "" {
+		os.Stderr.Write(errBuf.Bytes())
+		return 3
+	}
+	// which case was it?
+	var lines []string
+	if *replay != "" {
+		data, _ := os.ReadFile(*replay)
+		var r struct {
+			Replay map[string]any `json:"replay"`
+		}
+		_ = json.Unmarshal(data, &r)
+		if l, _ := r.Replay["case"].(string); l != "" {
+			lines = append(lines, l)
+		}
+	} else {
+		ents, _ := os.ReadDir(dir)
+		for _, de := range ents {
+			data, _ := os.ReadFile(filepath.Join(dir, de.Name()))
+			for _, l := range strings.Split(string(data), "\n") {
+				if l != "" {
+					lines = append(lines, l)
+				}
+			}
+		}
+	}
+	sort.Strings(lines)
+	rp := lib.NewReport(*prop, *tier, *seed)
+	var mu sync.Mutex
+	var wg sync.WaitGroup
+	sem := make(chan struct{}, 16)
+	for _, l := range lines {
+		wg.Add(1)
+		sem <- struct{}{}
+		go func(l string) {
+			defer wg.Done()
+			defer func() { <-sem }()
+			c := exec.Command(os.Args[0], "-prop", *prop, "-driver", *driver, "-known", *known, "-caseline", l)
+			c.Env = append(os.Environ(), "VERIF_JPTEXT_CHILD=1")
+			var eb bytes.Buffer
+			c.Stderr = &eb
+			done := make(chan error, 1)
+			if err := c.Start(); err != nil {
+				return
+			}
+			go func() { done <- c.Wait() }()
+			var werr error
+			timedOut := false
+			select {
+			case werr = <-done:
+			case <-time.After(60 * time.Second):
+				_ = c.Process.Kill()
+				<-done
+				timedOut = true
+			}
+			msg := lastLines(eb.Bytes(), "fatal error:")
+			if timedOut {
+				msg = "no answer within 60 s"
+			}
+			if (werr != nil && msg != "") || timedOut {
+				where := lastLines(eb.Bytes(), "github.com/ohler55/ojg/")
+				if i := strings.IndexByte(where, '('); i > 0 {
+					where = where[:i] // the arguments are addresses
+				}
+				mu.Lock()
+				rp.Add(lib.Finding{Kind: "violation", Class: "fatal:" + strings.ReplaceAll(strings.TrimPrefix(msg, "fatal error: "), " ", "-"),
+					What:   "the code under test kills the process (" + msg + ") in " + where,
+					Replay: map[string]any{"case": l, "stream": "supervisor"}})
+				mu.Unlock()
+			}
+		}(l)
+	}
+	wg.Wait()
+	if len(rp.Findings) == 0 {
+		os.Stderr.Write(errBuf.Bytes())
+		return 3
+	}
+	rp.AddEval(int64(len(lines)), int64(len(lines)))
+	rp.Rule = "the run was cut short by a fatal runtime error in the code under test (" + fatalMsg + "); the cases in flight were re-run one per process"
+	rp.Notes = append(rp.Notes, "run cut short by: "+fatalMsg)
+	for _, f := range rp.Findings {
+		fmt.Printf("%s %s: %s\n", f.Kind, f.Class, f.What)
+	}
+	if *outPath != "" {
+		if err := rp.Write(*outPath); err != nil {
+			return 3
+		}
+	}
+	return 0
 }
 
 // ---- running the real code ---------------------------------------------------------------------------------
